@@ -281,7 +281,8 @@ def sweep_steps(rng, node, nodespec, cats=None, nchange=0):
     # the boundary catalogue of every described datainfo, sent as `change` requests (a parameter described read-only must
     # refuse them all; for a writable one the described datainfo predicts which are refused)
     for (mname, aname), (cdt, payloads) in (cats or {}).items():
-        for data in payloads[:nchange]:
+        pobj = node.secnode.modules[mname].parameters.get(node.secnode.modules[mname].accessiblename2attr.get(aname))
+        for data in payloads[:nchange if pobj is not None and not pobj.readonly else 2]:
             steps.append({'kind': 'change', 'spec': '%s:%s' % (mname, aname), 'data': data,
                           'script': rng.choice(['none', 'none', 'value_valid']), 'seed': rng.randrange(1 << 30)})
     # faults inside the module: it assigns values its own datatype refuses (wrong kind, out of range, too long, NaN),
@@ -582,9 +583,8 @@ def run_node(rng, node, box, nodespec, classes, cfgs=None, big=False):
     rep1 = report_json(desc1)
     # boundary catalogues of the described datainfos: all of them for the datainfo checks (datatype against datatype),
     # the first ones of each also as change requests (described datainfo against what the node does)
-    quick = not big
-    cats = param_catalogues(random.Random(rng.randrange(1 << 30)), node, desc1, 6 if quick else 10, 4 if quick else 12)
-    steps, acts = sweep_steps(rng, node, nodespec, cats, 5 if quick else 8)
+    cats = param_catalogues(random.Random(rng.randrange(1 << 30)), node, desc1, 6, 4 if not big else 6)
+    steps, acts = sweep_steps(rng, node, nodespec, cats, 5)
     rec = None
     if nodespec is not None:
         rec = run_steps_on(node, box, nodespec, classes, steps)
@@ -875,9 +875,9 @@ def gen_datatype_cfg(rng, dt):
     elif k == 'blob':
         over['maxbytes'] = rng.choice([dt[2] + 2, max(dt[1], 1), 3])
     elif k == 'array':
+        # (no `minlen`: a parameter without default then starts with a value its own datatype does not export, and the
+        # read of such a parameter is outside C04's step model - see design_notes/C06.md, left open)
         over['maxlen'] = rng.choice([dt[3] + 1, max(dt[2], 1), dt[3]])
-        if rng.random() < 0.3:
-            over['minlen'] = rng.choice([0, dt[2], min(dt[2] + 1, over['maxlen'])])
     if k in ('scaled', 'floatr', 'float', 'intr', 'int') and rng.random() < 0.25:
         over['unit'] = rng.choice(['K', 'mm/s', '%'])
     return over
@@ -1065,7 +1065,7 @@ def run(ctx):
     if os.path.isdir(cdir):
         for fn in sorted(os.listdir(cdir)):
             todo.append(dict(json.load(open(os.path.join(cdir, fn)))['case'], corpus=fn))
-    for _ in range(ctx.budget(220, 3000)):
+    for _ in range(ctx.budget(220, 2400)):
         todo.append(gen_case(rng.randrange(1 << 40), big))
     items = []
     for case in todo:
